@@ -110,3 +110,107 @@ class Top(collections.abc.Sized, metaclass=type):
 @staticmethod
 def deco(arg: int = g1) -> PI:
     raise ValueError from deco
+
+
+# ---- added by the coverage audit ---------------------------------------------------------------------------
+import functools
+import json as js
+from dataclasses import dataclass, field
+import typing
+
+try:
+    import not_installed_optional_pkg as opt
+    from not_installed_optional_pkg.sub import thing
+except (ImportError, ModuleNotFoundError) as exc:
+    print(exc)
+    opt_missing = exc.args
+else:
+    opt_ok = opt
+finally:
+    done_trying = g1
+
+try:
+    import json.decoder
+except ImportError:
+    js = None
+
+if g1:
+    cond_a = 1
+elif PI:
+    cond_b = 2
+else:
+    cond_c = cond_a
+
+for loop_var in range(g1):
+    in_loop = loop_var
+else:
+    after_loop = in_loop
+
+while g1 and not PI:
+    in_while = g1
+else:
+    after_while = 1
+
+with open(osp.join('x')) as module_fh:
+    content = module_fh.read()
+
+tmp_name = g1
+del tmp_name, content
+sig = js
+dumps_alias = js.dumps
+deep_alias = osp.sep.upper
+__all__ = ['g1', 'f_global', 'no_such_export']
+ann_plain: int
+ann_value: typing.List[int] = [g1]
+(ann_paren): int = 3
+osp.sep.ann_attr: PI = 4
+t[g1]: PI
+
+if __name__ == '__main__':
+    import doctest
+    main_only = doctest.testmod()
+    print(main_only, g1)
+
+
+@dataclass(frozen=True)
+class Data:
+    x: int = 0
+    y: typing.Optional[float] = field(default=g1)
+    z: 'Undefined' = None
+    plain = x
+
+    @classmethod
+    def make(cls, v: int = g1) -> 'Data':
+        w: float = v
+        q: int
+        self.attr: PI = w
+        return cls(w), x, Data.x, main_only, doctest, opt, thing, tmp_name, exc, loop_var, cond_c
+
+    @staticmethod
+    @functools.lru_cache(maxsize=g1)
+    def cached(a=[m for m in range(g1) if m in opt_missing], *, k=lambda s=g1: s + PI + undefined_in_lambda):
+        return [n for n in a if n is not undefined_in_condition], {u: v for u in a for v in u if v < undef2}, \
+            (lambda: a + undefined_in_lambda_body)(), getattr(a, 'real', None), getattr(js, k), \
+            f'{undefined_in_fstring!r:{undefined_in_spec}}', sig.loads, dumps_alias, deep_alias
+
+    @property
+    def prop(self):
+        def helper(d=undefined_default, *, e: undefined_annotation = None) -> undefined_return:
+            nonlocal self
+            global made_global
+            made_global = self
+            return d, e
+        if (walrus := undefined_in_walrus) and walrus:
+            return helper
+        try:
+            pass
+        except undefined_exception_class as err:
+            raise RuntimeError(err) from undefined_cause
+        except (KeyError, undefined_in_tuple):
+            raise
+        assert undefined_in_assert, undefined_assert_message
+        with undefined_context() as c, c.attr as d:
+            return c[undefined_index:d]
+        for self.i in undefined_iterable:
+            yield from undefined_generator
+        return made_global
